@@ -32,6 +32,7 @@ structure SProp where
   isPtr : Bool := false              -- prop.Type.Kind() == reflect.Pointer
   isNil : Bool := false              -- prop.Value.IsNil()
   isStruct : Bool := false           -- the (pointee) type is a struct
+  isTime : Bool := false             -- … convertible to time.Time (validated as a variable)
   canIface : Bool := true            -- prop.Value.CanInterface()
 
 def SProp.dflt : SProp := {}
@@ -184,7 +185,8 @@ def stageLoop (node : Nat → SW → SW × Option String) : List Nat → SW → 
 /-! ### the validate loop -/
 
 /-- validate_aware_post_processors.go:38-62: only configuration nodes with a `validate` argument; a nil pointer is skipped;
-    a struct (or pointer to struct) goes to validator.Struct, anything else that can be read to validator.Var -/
+    a struct (or pointer to struct) that is NOT a time value goes to validator.Struct, anything else that can be read —
+    time values included (fix of defect D25) — to validator.Var; `isStruct` below = "struct and not convertible to time.Time" -/
 def validateDecision {ε α : Type} (cfgType : Bool) (arg : Option α) (nilPtr isStruct canIface : Bool) (vs : Option ε)
     (vv : α → Option ε) : Decision ε :=
   if !cfgType then .skip else
@@ -213,6 +215,9 @@ def validFn (props : List SProp) (vS : Nat → Option String) (vV : Nat → Stri
   | "$ArgValidate", [], w => some (.str "validate", w)
   | "$reflect.Pointer", [], w => some (.str "ptr", w)
   | "$reflect.Struct", [], w => some (.str "struct", w)
+  | "$timeType", [], w => some (.str "time.Time", w)
+  | ".ConvertibleTo", [.ref i 21, .str "time.Time"], w => some (.bool (spropAt props i).isTime, w)
+  | ".ConvertibleTo", [.ref i 23, .str "time.Time"], w => some (.bool (spropAt props i).isTime, w)
   | ".PropertyType", [.ref i 20], w => some (.str (if (spropAt props i).cfgType then "configuration" else "component"), w)
   | ".Args", [.ref i 20], w => some (.ref i 22, w)
   | ".Find", [.ref i 22, .str "validate"], w =>
@@ -240,6 +245,11 @@ theorem validFn_cfgType (w : SW) : validFn props vS vV "$component_definition.Pr
 theorem validFn_argValidate (w : SW) : validFn props vS vV "$ArgValidate" [] w = some (.str "validate", w) := rfl
 theorem validFn_rPointer (w : SW) : validFn props vS vV "$reflect.Pointer" [] w = some (.str "ptr", w) := rfl
 theorem validFn_rStruct (w : SW) : validFn props vS vV "$reflect.Struct" [] w = some (.str "struct", w) := rfl
+theorem validFn_timeType (w : SW) : validFn props vS vV "$timeType" [] w = some (.str "time.Time", w) := rfl
+theorem validFn_Conv (i : Nat) (w : SW) : validFn props vS vV ".ConvertibleTo" [.ref i 21, .str "time.Time"] w =
+    some (.bool (spropAt props i).isTime, w) := rfl
+theorem validFn_ConvElem (i : Nat) (w : SW) : validFn props vS vV ".ConvertibleTo" [.ref i 23, .str "time.Time"] w =
+    some (.bool (spropAt props i).isTime, w) := rfl
 theorem validFn_PropertyType (i : Nat) (w : SW) : validFn props vS vV ".PropertyType" [.ref i 20] w =
     some (.str (if (spropAt props i).cfgType then "configuration" else "component"), w) := rfl
 theorem validFn_Args (i : Nat) (w : SW) : validFn props vS vV ".Args" [.ref i 20] w = some (.ref i 22, w) := rfl
@@ -277,14 +287,14 @@ def validateNode (props : List SProp) (vS : Nat → Option String) (vV : Nat →
   | none => (w, none)
   | some ts =>
     if p.isPtr && p.isNil then (w, none) else
-    if p.isStruct then (w ++ [.vStruct i], vS i)
+    if p.isStruct && !p.isTime then (w ++ [.vStruct i], vS i)
     else if p.canIface then (w ++ [.vVar i (",".intercalate ts)], vV i (",".intercalate ts))
     else (w, none)
 
 def validateNodeDecision (props : List SProp) (vS : Nat → Option String) (vV : Nat → String → Option String) (i : Nat) :
     Decision String :=
   let p := spropAt props i
-  validateDecision p.cfgType p.validate (p.isPtr && p.isNil) p.isStruct p.canIface (vS i) (fun ts => vV i (",".intercalate ts))
+  validateDecision p.cfgType p.validate (p.isPtr && p.isNil) (p.isStruct && !p.isTime) p.canIface (vS i) (fun ts => vV i (",".intercalate ts))
 
 /-! ### util/el ReplaceAllContent: the bounded replacement loop, for ANY callback (which may change the world) -/
 
